@@ -224,8 +224,10 @@ Definition kf_C11_2 (s : lstate) (o : lop) : bool :=
 (* total of market m = sum of its deposits; every deposit >= 0; custody in denom d, relative to
    what the module held when the case started, covers the deposits in that denom *)
 Definition holds_C11_limit_total (s : lstate) (m : mkt) : bool := tot m s =? sum_market m s.
+Definition nonneg_denom (d : Z) (s : lstate) : bool :=
+  forallb (fun kr => negb (r_denom (snd kr) =? d) || (0 <=? r_amt (snd kr))) (recs s).
 Definition holds_C11_limit_custody (s : lstate) (d base : Z) : bool :=
-  all_nonneg s && (sum_denom d s <=? led s MOD d - base).
+  nonneg_denom d s && (sum_denom d s <=? led s MOD d - base).
 
 (* own deposit only: what a Withdraw/Cancel paid to [who] in denom d (observed balance change),
    judged against the depositor's record before the step *)
